@@ -72,8 +72,15 @@ func c37NewUniverse() *c37Universe {
 	t2 := put("tree", c37Tree([][3]string{{"100644", "a", X}, {"40000", "d", subL}, {"160000", "s", link}}), X, subL)
 	t3 := put("tree", c37Tree([][3]string{{"100644", "a", Y}, {"40000", "d", subL}, {"40000", "e", subK}}), Y, subL, subK)
 	t4 := put("tree", c37Tree([][3]string{{"40000", "d", deep}, {"100644", "k", X}}), deep, X)
-	u.menu = []string{t0, t1, t2, t3, t4}
-	u.names = []string{"T0{a:x d/g:k}", "T1{a:y d/g:k}", "T2{a:x d/g:l s:gitlink}", "T3{a:y d/g:l e/g:k}", "T4{d/h/g:k k:x}"}
+	// a directory with one child that changes and one (w, reachable from nothing else) that never does:
+	// T0 -> T5 -> T6 -> T5 adds d/w, changes d/g, and reverts the directory to a tree seen before
+	W := put("blob", []byte("w: only below d, never changes\n"))
+	subKW := put("tree", c37Tree([][3]string{{"100644", "g", K}, {"100644", "w", W}}), K, W)
+	subLW := put("tree", c37Tree([][3]string{{"100644", "g", L}, {"100644", "w", W}}), L, W)
+	t5 := put("tree", c37Tree([][3]string{{"100644", "a", X}, {"40000", "d", subKW}}), X, subKW)
+	t6 := put("tree", c37Tree([][3]string{{"100644", "a", X}, {"40000", "d", subLW}}), X, subLW)
+	u.menu = []string{t0, t1, t2, t3, t4, t5, t6}
+	u.names = []string{"T0{a:x d/g:k}", "T1{a:y d/g:k}", "T2{a:x d/g:l s:gitlink}", "T3{a:y d/g:l e/g:k}", "T4{d/h/g:k k:x}", "T5{a:x d/g:k d/w}", "T6{a:x d/g:l d/w}"}
 	return u
 }
 
@@ -215,6 +222,7 @@ func c37Assignments(n, k int, full bool) [][]int {
 		return out
 	}
 	pats := [][]int{
+		{0, 5, 6, 5, 0}, // a directory reverts to an earlier tree while one of its children never changed
 		{0, 1, 0, 1, 0}, // reverted content
 		{0, 1, 2, 3, 4}, // all different
 		{0, 0, 0, 0, 0}, // nothing ever changes
@@ -341,12 +349,12 @@ func runC37(c *fw.Ctx) {
 	c.Bound("parents", "ascending parent lists (parent order is irrelevant to reachability), up to 3 parents for n<=4, 2 for n=5")
 	c.Bound("tree_menu", u.names)
 	fullK := map[int]int{1: 5, 2: 5, 3: 3}
-	npat := map[int]int{4: 2} // quick: reverted + all-different at 4 commits
+	npat := map[int]int{4: 3} // quick: reverted directory, reverted content, all-different at 4 commits
 	if c.Thorough() {
 		fullK[3] = 4
-		npat = map[int]int{4: 6, 5: 1}
+		npat = map[int]int{4: 7, 5: 1}
 	}
-	c.Bound("tree_assignments", fmt.Sprintf("every assignment over the first k menu trees for n->k in %v; beyond that the first p of the fixed patterns {alternating/reverted, all different, constant, palindrome with moved subtree, deep subtree + gitlink, mixed} for n->p in %v; at 5 commits the single mixed pattern T0 T1 T0 T3 T1 (revert, moved subtree, repeat)", fullK, npat))
+	c.Bound("tree_assignments", fmt.Sprintf("every assignment over the first k menu trees for n->k in %v; beyond that the first p of the fixed patterns {reverted directory with an unchanged child, alternating/reverted, all different, constant, palindrome with moved subtree, deep subtree + gitlink, mixed} for n->p in %v; at 5 commits the single mixed pattern T0 T1 T0 T3 T1 (revert, moved subtree, repeat)", fullK, npat))
 	c.Bound("wants_haves", "n<=4: wants every 1- and 2-subset of commits x haves {none, each commit, each pair, commit+missing (every commit for n<=3, c0 at n=4), tag on commit (every / last), missing only, tag->tree, tag->blob, raw tree, raw blob, tag->tag}; wants {tag on each commit, tag->tree, tag->blob, tag->tag->commit, tag->tree + tip, raw tree, raw blob} x haves {none, each commit}; n=5: wants each commit x haves {each commit, each pair}")
 	c.Bound("conformance_max_commits", confN)
 	c.SetRule("every DAG x weak order x tree assignment x want/have query; revlist.Objects on a memory store holding the raw objects; verdict: reach(wants)\\reach(haves) subset of result subset of reach(wants) under an object-level reachability model; the model's reach sets are replayed against `git rev-list --objects <start>` for every distinct start of the complete space up to conformance_max_commits, and git's own `rev-list --objects wants --not haves` is checked to lie between the same bounds with exactly the model's commits; non-trivial = at least one have present in the store; distinct counts (result vs bounds: exact-lower / between / exact-upper, want kind, have kind, timestamp shape) classes")
